@@ -159,11 +159,15 @@ def flowOfJson (j : Json) : Except String Flow := do
     updated := ← (← j.getObjVal? "updated").getInt?
     activated := ← (← j.getObjVal? "activated").getInt?
     actionUids := ← strList (← j.getObjVal? "action_uids")
-    heads := heads }
+    heads := heads
+    scopeFlows := ← match j.getObjVal? "scope_flows" with
+      | .ok v => do (← v.getArr?).toList.mapM strList
+      | .error _ => pure [] }
 
 open NemoVerif.CleanUp in
 def flowToJson (f : Flow) : Json :=
   Json.mkObj [("uid", .str f.uid), ("children", Json.arr (f.children.map Json.str).toArray),
+    ("scope_flows", Json.arr (f.scopeFlows.map fun l => Json.arr (l.map Json.str).toArray).toArray),
     ("heads", Json.arr (f.heads.map fun h => Json.mkObj [("uid", .str h.uid), ("n_scores", Json.num (JsonNumber.fromNat h.scores.length))]).toArray)]
 
 partial def labOfJson (j : Json) : Except String (Refs.Lab Nat Nat) :=
